@@ -489,7 +489,7 @@ func (r creq) bytes(rnd func(int) int) string {
 		ps := make([]string, len(r.ns))
 		for i, n := range r.ns {
 			ps[i] = strconv.Itoa(n)
-			if n == 0 && rnd(2) == 0 {
+			if n == 0 && len(r.ns) > 1 && rnd(2) == 0 {
 				ps[i] = "" // an omitted parameter is 0
 			}
 		}
